@@ -256,14 +256,27 @@ class Summarizer:
         class T(ast.NodeTransformer):
             def visit_Call(self, call):
                 self.generic_visit(call)
+                if any(isinstance(a, ast.Starred) and isinstance(a.value, (ast.Tuple, ast.List)) for a in call.args):
+                    # f(x, *(a, b)) is f(x, a, b)
+                    flat = []
+                    for a in call.args:
+                        if isinstance(a, ast.Starred) and isinstance(a.value, (ast.Tuple, ast.List)) and not any(isinstance(x, ast.Starred) for x in a.value.elts):
+                            flat.extend(a.value.elts)
+                        else:
+                            flat.append(a)
+                    call = ast.Call(func=call.func, args=flat, keywords=call.keywords)
                 if isinstance(call.func, ast.Name) and call.func.id in me.inline and not call.keywords:
                     h = me.inline[call.func.id]
                     params = [a.arg for a in h.args.args]
-                    if len(call.args) == len(params) and not h.args.vararg and not h.args.kwarg:
+                    if len(call.args) == len(params) and not h.args.vararg and not h.args.kwarg and not any(isinstance(a, ast.Starred) for a in call.args):
                         paths = me.summarize(h, depth - 1)
                         ex = _as_expr(paths)
                         if ex is not None:
-                            return subst(ex, dict(zip(params, call.args)))
+                            r = subst(ex, dict(zip(params, call.args)))
+                            # a helper passed in as an argument is called by its parameter's name: what it stands for is known now
+                            if any(isinstance(a, ast.Name) and a.id in me.inline for a in call.args):
+                                r = me._inline_calls(r, depth - 1)
+                            return r
                 return call
 
         return T().visit(copy.deepcopy(e))
@@ -417,8 +430,12 @@ class Summarizer:
                     henv[nm] = ast.Name(id=f"__try{st.lineno}_{nm}__", ctx=ast.Load())
                 if h.name:
                     henv[h.name] = ast.Name(id=f"__caught{st.lineno}_{i}__", ctx=ast.Load())
-                hat = ast.Name(id=f"__exc{st.lineno}_{i}__", ctx=ast.Load())
-                out.extend(self._block(h.body, [(henv, conds + [(atom, True), (hat, True)])], done, depth, func))
+                # which handler: the first i-1 did not match, this one does (the last one takes what is left; an exception no
+                # handler matches leaves the function, which is not a path of the summary)
+                which = [(ast.Name(id=f"__exc{st.lineno}_{j}__", ctx=ast.Load()), False) for j in range(i)]
+                if i < len(st.handlers) - 1:
+                    which.append((ast.Name(id=f"__exc{st.lineno}_{i}__", ctx=ast.Load()), True))
+                out.extend(self._block(h.body, [(henv, conds + [(atom, True)] + which)], done, depth, func))
             return out
         if isinstance(st, ast.Expr) and isinstance(st.value, ast.Call) and (U(st.value.func) in self.effect_calls or "*" in self.effect_calls):
             c = st.value
@@ -439,6 +456,23 @@ class Summarizer:
                 if nm in env and meth in ("reverse", "append", "extend", "insert", "sort", "pop", "clear"):
                     env[nm] = ast.Call(func=ast.Name(id=f"__after_{meth}__", ctx=ast.Load()), args=[env[nm]] + [self._sub(a, env, depth) for a in st.value.args], keywords=[])
             return [(env, conds)]
+        if isinstance(st, ast.Assign) and len(st.targets) == 1 and isinstance(st.targets[0], (ast.Tuple, ast.List)) \
+                and any(isinstance(x, (ast.Attribute, ast.Subscript)) for x in st.targets[0].elts) and not any(isinstance(x, ast.Starred) for x in st.targets[0].elts):
+            # (a.x, a.y) = v: the value is taken first, then element i goes to target i
+            v = self._sub(st.value, env, depth)
+            states = [(env, conds)]
+            for i, tg in enumerate(st.targets[0].elts):
+                part = v.elts[i] if isinstance(v, (ast.Tuple, ast.List)) and len(v.elts) == len(st.targets[0].elts) else _Canon().visit(
+                    ast.Subscript(value=copy.deepcopy(v), slice=ast.Constant(i), ctx=ast.Load()))
+                hold = ast.Name(id=f"__part{st.lineno}_{i}__", ctx=ast.Load())
+                nxt = []
+                for e_, c_ in states:
+                    e_[hold.id] = part
+                    one = ast.copy_location(ast.Assign(targets=[tg], value=hold), st)
+                    nxt.extend(self._stmt(one, e_, c_, done, depth, func))
+                    e_.pop(hold.id, None)
+                states = nxt
+            return states
         if isinstance(st, ast.Assign):
             # stores into attributes / subscripts: recorded as effects, and visible to later reads of the same place
             v = self._sub(st.value, env, depth)
@@ -592,6 +626,21 @@ class _Simp(ast.NodeTransformer):
         if r is False:
             return self.visit(node.orelse)
         return self.generic_visit(node)
+
+
+def simplify(e, sc):
+    """``e`` with the conditional expressions the scenario decides resolved"""
+    r = _Simp(Asg(sc, {})).visit(copy.deepcopy(_strip(e)))
+
+    class K(ast.NodeTransformer):
+        def visit(self, node):
+            if isinstance(node, ast.expr) and not isinstance(node, ast.Constant):
+                t = _sx._u(node)
+                if t in sc and (sc[t] is None or isinstance(sc[t], (bool, int, str))):
+                    return ast.copy_location(ast.Constant(sc[t]), node)
+            return super().visit(node)
+
+    return K().visit(r)
 
 
 def _parts(e):
